@@ -3,6 +3,7 @@ package main
 import (
 	"fmt"
 	"go/types"
+	"regexp"
 	"strings"
 )
 
@@ -34,8 +35,24 @@ const (
 	kAddrZ
 )
 
+var byteRe = regexp.MustCompile(`\bbyte\b`)
+var runeRe = regexp.MustCompile(`\brune\b`)
+var typeKeyCache = map[types.Type]string{}
+
+// typeKey is a canonical name for a type (universe aliases byte/rune resolved).
 func typeKey(t types.Type) string {
-	return types.TypeString(t, func(p *types.Package) string { return p.Path() })
+	if k, ok := typeKeyCache[t]; ok {
+		return k
+	}
+	s := types.TypeString(types.Unalias(t), func(p *types.Package) string { return p.Path() })
+	if strings.Contains(s, "byte") {
+		s = byteRe.ReplaceAllString(s, "uint8")
+	}
+	if strings.Contains(s, "rune") {
+		s = runeRe.ReplaceAllString(s, "int32")
+	}
+	typeKeyCache[t] = s
+	return s
 }
 
 func isNamed(t types.Type, pkg, name string) bool {
